@@ -60,6 +60,7 @@ type Net struct {
 	trans   map[string]*SimTransport // current incarnation per node
 	blocked map[[2]string]bool       // directed pairs that cannot communicate
 	old     []*Rpc                   // finished requests that may be duplicated
+	DupSnapshots bool                // allow duplicates of InstallSnapshot requests (family dupis)
 }
 
 func newNet(c *Cluster) *Net {
@@ -379,6 +380,11 @@ func (n *Net) Duplicate(idx int) *Rpc {
 		return nil
 	}
 	o := n.old[idx%len(n.old)]
+	if o.Kind == "is" && !n.DupSnapshots {
+		// a re-delivered InstallSnapshot is explored in the family "dupis" only (known finding)
+		n.mu.Unlock()
+		return nil
+	}
 	n.nextID++
 	d := &Rpc{ID: n.nextID, Kind: o.Kind, Src: o.Src, Dst: o.Dst, SrcInc: o.SrcInc, Req: o.Req, Phase: phReq, Dup: true, done: make(chan error, 1)}
 	if br, ok := o.Data.(*bytes.Reader); ok {
